@@ -61,6 +61,20 @@ class BuildLock:
 def translate():
     """Regenerate coq/gen/Tables.v from the working tree.  Returns (ok, text)."""
     rc, out = sh([PY, os.path.join(VERIF, 'harness', 'translate.py')], timeout=120)
+    # a compiled generated file must come from the generated source that is on disk now: the hash of the source is kept beside the .vo, and a .vo whose
+    # source hash is not the current one is removed (make only compares time stamps, which two runs in one checkout can get wrong)
+    import hashlib
+    for f in ('Tables', 'Codecs'):
+        v, vo, st = (os.path.join(COQ, 'gen', f + e) for e in ('.v', '.vo', '.srchash'))
+        if not os.path.exists(v):
+            continue
+        h = hashlib.sha256(open(v, 'rb').read()).hexdigest()
+        old = open(st).read().strip() if os.path.exists(st) else None
+        if old != h:
+            for x in (vo, os.path.join(COQ, 'gen', f + '.vos'), os.path.join(COQ, 'gen', f + '.vok'), os.path.join(COQ, 'gen', f + '.glob')):
+                if os.path.exists(x):
+                    os.unlink(x)
+            open(st, 'w').write(h)
     return rc == 0, out.strip()
 
 
